@@ -137,7 +137,8 @@ def azimuthal(cl, rng, n, replay):
     import hvsrpy
     for j in range(n):
         raw, recs, N, dt = _records(rng, count=int(rng.integers(1, 3)))
-        azs = [np.array([0., 45., 90., 135.]), np.array([15.]), np.array([10., 100., 170.]), np.arange(0, 180, 60.)][j % 4]
+        azs = [np.array([0., 45., 90., 135.]), np.array([15.]), np.array([10., 100., 170.]), np.arange(0, 180, 60.), np.array([100., 10., 55.]),
+               np.array([60., 60., 20.])][j % 6]       # the caller's list as given: any order, repeated values allowed
         s, n_exp, width, op, b, fcs = _settings("HvsrAzimuthalProcessingSettings", rng, N, dt, azimuths_in_degrees=azs)
         try:
             h = hvsrpy.process(recs, s)
